@@ -400,6 +400,38 @@ def check_chunk(res, N, bl, strand, a, b, cstrand):
     res.trans()
     if o4[0] != "ok" or M.P(lib.loc_blocks(o4[1]), lib.loc_strand(o4[1])) != M.P(rb, lib.loc_strand(R)) or lib.loc_strand(o4[1]) != lib.loc_strand(R):
         res.deviation("chunk->chunk", case, lib.canon_loc(o4[1]) if o4[0] == "ok" else o4[1], lib.canon_loc(R), sig="chunk-relift")
+    # the interval classes offer the same lift: an ancestor type that the hierarchy does not have is refused there too (and
+    # the one it has is answered like the location-level lift)
+    if cstrand == "+":
+        fo = lib.outcome(lambda: lib.mk_feat(bl, strand, par))
+        if fo[0] == "ok":
+            o10 = lib.outcome(fo[1].lift_over_to_first_ancestor_of_type, "scaffold")
+            o11 = lib.outcome(fo[1].lift_over_to_first_ancestor_of_type, "chromosome")
+            res.trans(2)
+            if o10[0] == "ok" or type(o10[2]).__name__ != "NoSuchAncestorException":
+                res.deviation("FeatureInterval.lift_over_to_first_ancestor_of_type", dict(case, asked="scaffold"), lib.canon_loc(o10[1]) if o10[0] == "ok" else o10[1],
+                              "NoSuchAncestorException", sig="interval-lift-absent-type-answered")
+            if o11[0] != "ok" or M.P(lib.loc_blocks(o11[1]), lib.loc_strand(o11[1])) != inside:
+                res.deviation("FeatureInterval.lift_over_to_first_ancestor_of_type", dict(case, asked="chromosome"), lib.canon_loc(o11[1]) if o11[0] == "ok" else o11[1],
+                              inside, sig="interval-lift-chromosome")
+    # ... also onto the chunk over the SAME window on the other strand of the chromosome (seq_chunk_to_parent gives both the
+    # same id, `chrV:a-b`): same chromosome bases, coordinates counted from the other end, relative strand flipped
+    ostrand = "-" if cstrand == "+" else "+"
+    opar = seq_chunk_to_parent(F.splice(G, M.P(((a, b),), ostrand), ostrand), "chrV", a, b, strand=lib.STRAND[ostrand], alphabet=ALPHA)
+    o8 = lib.outcome(AbstractInterval.liftover_location_to_seq_chunk_parent, R, opar)
+    res.trans()
+    Po = M.P(((a, b),), ostrand)
+    if o8[0] != "ok":
+        res.deviation("chunk->twin chunk on the other strand", case, o8[1], [inside, M.strand_rel(strand, ostrand)], sig="chunk-twin-strand-raises")
+    else:
+        rb8 = lib.loc_blocks(o8[1])
+        got8 = [Po[q] for q in M.P(rb8, lib.loc_strand(o8[1]))] if all(0 <= s_ and e_ <= b - a for s_, e_ in rb8) else rb8
+        if got8 != inside or lib.loc_strand(o8[1]) != M.strand_rel(strand, ostrand):
+            res.deviation("chunk->twin chunk on the other strand", case, [got8, lib.loc_strand(o8[1])], [inside, M.strand_rel(strand, ostrand)], sig="chunk-twin-strand-positions")
+        else:
+            o9 = lib.outcome(lambda: str(o8[1].extract_sequence()))
+            if o9[0] != "ok" or o9[1] != e:
+                res.deviation("chunk->twin chunk on the other strand", case, o9[1], e, sig="chunk-twin-strand-sequence")
 
 
     # a location that NAMES another chromosome (explicit chromosome parent with a different id) is not a location on this
